@@ -106,7 +106,7 @@ def graded_saliency(lead, N, lo=0.25, hi=2.0):
     s = np.linspace(lo, hi, N)
     out = np.empty(tuple(lead) + (N,))
     for j, idx in enumerate(np.ndindex(*lead)):
-        out[idx] = np.roll(s, j)
+        out[idx] = np.roll(s, j) * (1.0 + 0.7 * j)   # slices carry different total saliency
     return out
 
 
